@@ -157,9 +157,10 @@ class World:
             sel = r.sample(names, r.randrange(1, len(names) + 1))
             for s in sel:
                 order.append([s])
-            if r.random() < 0.3 and len(sel) >= 2:
+            if r.random() < 0.45 and len(sel) >= 2:
                 a, b = r.sample(sel, 2)
-                order.insert(r.randrange(0, len(order) + 1), [a, b])
+                # a combination of two sources with its own priority level; half of the time in the first position
+                order.insert(0 if r.random() < 0.5 else r.randrange(0, len(order) + 1), [a, b])
         additional = []
         if r.random() < 0.55 and len(names) >= 2:
             # several additional sets (single sources and pairs) in random order: more than one can be a subset of a
